@@ -300,6 +300,8 @@ func PanicSignature(msg, stack string) string {
 		class = "slice bounds out of range"
 	} else if strings.Contains(msg, "nil pointer dereference") {
 		class = "nil pointer dereference"
+	} else if strings.Contains(msg, "called using nil") {
+		class = "method on nil pointer"
 	} else if strings.Contains(msg, "negative Repeat count") {
 		class = "negative Repeat count"
 	}
